@@ -40,6 +40,14 @@ import Reduino.GenOb.Ops
   arithmetic and comparisons (the theorems' statements are textually unchanged; the store relation of `expr_preserved` says `Ty.holds`).
   The operator tokens `Render` prints are tied to the transpiler's `_BIN`/`_UN`/`_CMP` tables by the
   obligations of `GenOb/Ops.lean`.
+  Helper functions (W6): `Stmt.call` — `f(args)` / `x = f(args)` at statement level; the statement carries the definition it calls
+  (`Prog.helpers`, `Prog.resolved`: the listed definition of that name, earlier helpers only, no recursion).  Python: arguments in the
+  caller's store, a fresh frame with the parameters, the body, the value of the one trailing `return`; C++: arguments converted to the
+  parameter types, the body under parameters + locals (a local declared by its first top-level assignment), `return` converted to the
+  return type.  `tr` emits ONE definition per helper (all-int parameters for a helper never called with a target: `Prog.sigsOk`;
+  prototypes only with more than one definition).  `C01_partial` and `C01_partial_promotion` cover procedures and value-returning helpers
+  whose bodies name parameters and locals only (statements unchanged: `InF`/`InF2`, `tr`/`tr2` and both semantics gained the
+  constructor); module-level names inside a body are outside (`nameError` of the model).
 -/
 namespace Reduino.Props.C01
 open Reduino.Lang
@@ -103,9 +111,8 @@ theorem break_in_main_loop_rejected (pre body : Stmt) (h : breaksOut body = true
         · obtain ⟨e, he⟩ := iha hb te; rw [he] at ha'; cases ha'
         · obtain ⟨e, he⟩ := ihb hb te; rw [he]; exact ⟨e, rfl⟩
     | _ => intro hb; simp [breaksOut] at hb
-  unfold tr
-  split
-  · unfold trCore
+  have core : ∃ e, trCore { pre := pre, body := some body } = .error e := by
+    unfold trCore
     cases hacc : trTop {} pre with
     | error e => exact ⟨e, rfl⟩
     | ok acc =>
@@ -113,6 +120,10 @@ theorem break_in_main_loop_rejected (pre body : Stmt) (h : breaksOut body = true
       refine ⟨e, ?_⟩
       show (do let loop ← trNested acc.te true 0 body; pure _) = _
       rw [he]; rfl
+  unfold tr
+  split
+  · obtain ⟨e, he⟩ := core
+    exact withHelpers_error he
   · exact ⟨_, rfl⟩
 
 /-- expression level: on well-typed expressions Python's value and C's value agree up to the declared-type
@@ -254,7 +265,7 @@ theorem promoted_read_before_assignment :
     setup := .seq (.ifs (.cmp .gt (.var "c") (.int 0)) (.assign "x" (.int 5)) .skip) (.write (.bin .add (.var "x") (.int 0)))
     loop := .skip }
   have h : tr2 p = .ok c0 := by
-    simp [p, c0, tr2, tr2Core, Prog.numbered, Stmt.numberedFrom, Stmt.tmpEnd, trTop2, trTop, trChain2, trBody2, trNested, sortDecls, newDecls, addPromoted,
+    simp [p, c0, tr2, tr2Core, withHelpers, Prog.resolved, Prog.sigsOk, helpersOk, Stmt.callsOk, Stmt.valueCalls, trHelpers, Prog.numbered, Stmt.numberedFrom, Stmt.tmpEnd, trTop2, trTop, trChain2, trBody2, trNested, sortDecls, newDecls, addPromoted,
       Reduino.Lemmas.C01p.sorted_single, inferTy, evalConst, Expr.nameFree, Py.eval, defaultOf, seqOf, List.lookup,
       bind, Except.bind, pure, Except.pure, Except.toOption]
   exact ⟨by rfl, c0, h, by rfl⟩
@@ -271,7 +282,7 @@ example :
       Py.run p 2 80 = .ok [.write "7", .write "8", .write "9"] := by
   intro p
   have h : ∃ c, tr2 p = .ok c ∧ c.globals.map (·.1) = ["c", "abe", "zed", "s"] := by
-    simp [p, tr2, tr2Core, Prog.numbered, Stmt.numberedFrom, Stmt.tmpEnd, trTop2, trTop, trChain2, trBody2, trNested, sortDecls, newDecls, addPromoted,
+    simp [p, tr2, tr2Core, withHelpers, Prog.resolved, Prog.sigsOk, helpersOk, Stmt.callsOk, Stmt.valueCalls, trHelpers, Prog.numbered, Stmt.numberedFrom, Stmt.tmpEnd, trTop2, trTop, trChain2, trBody2, trNested, sortDecls, newDecls, addPromoted,
       Reduino.Lemmas.C01p.sorted_single, Reduino.Lemmas.C01p.sorted_zed_abe, inferTy, evalConst, Expr.nameFree, Py.eval,
       defaultOf, seqOf, List.lookup, foldArg, bind, Except.bind, pure, Except.pure, Except.toOption]
   exact ⟨by decide, by decide, h, by rfl⟩
@@ -378,5 +389,91 @@ example : tr { pre := .seq (.assign "a" (.int 1)) (.seq (.assign "b" (.int 2)) (
 /-- a first assignment by tuple (the all-new-at-global-scope form, or the local declarations of finding F17) is outside the model -/
 example : tr { pre := .seq (.assign "a" (.int 1)) (.tuple 0 ["a", "b"] [.int 2, .var "a"]), body := none }
     = .error .outsideFragment := by rfl
+
+/-! ### W6: helper functions — in the model (syntax, both semantics, `tr`, rendering) and in the fragment `InF` (procedures and
+    value-returning helpers, called at statement level; bodies over parameters and locals) -/
+
+/-- `def shout(v): mon.write(v); sleep(5)` / `def scale(v, flag): t = v * 2; if flag: t = t + 1; shout(t); return t`, then
+    `a = 0; a = scale(4, True); shout(a)` and `a = scale(a, False)` in the main loop: accepted (the statements carry the definitions they
+    call: `Prog.resolve`), both semantics run it to the same trace, the emitted text has the two prototypes (more than one definition),
+    the definitions with the local declared at its first assignment, and the calls.  The program is in `InF` (increment 3:
+    value-returning helpers), so this is an instance of `C01_partial`. -/
+example :
+    let shout : Helper := { name := "shout", ps := [("v", .int)], body := .seq (.write (.var "v")) (.sleep (.int 5)), ret := none }
+    let scale : Helper := { name := "scale", ps := [("v", .int), ("flag", .bool)], ret := some (.var "t"), body := .seq (.assign "t" (.bin .mul (.var "v") (.int 2))) (.seq (.ifs (.var "flag") (.assign "t" (.bin .add (.var "t") (.int 1))) .skip) (.call none "shout" [] [] .int .skip none [.var "t"])) }
+    let p : Prog := Prog.resolve
+      { pre := .seq (.assign "a" (.int 0)) (.seq (.call (some "a") "scale" [] [] .int .skip none [.int 4, .bool true])
+                  (.call none "shout" [] [] .int .skip none [.var "a"])),
+        body := some (.call (some "a") "scale" [] [] .int .skip none [.var "a", .bool false]),
+        helpers := [shout, scale] }
+    p.resolved = true ∧ InF p = true ∧
+      Py.run p 2 50 = .ok [.write "9", .delay 5, .write "9", .delay 5, .write "18", .delay 5, .write "36", .delay 5] ∧
+      (∃ c, tr p = .ok c ∧
+        C.run c 2 50 = .ok [.write "9", .delay 5, .write "9", .delay 5, .write "18", .delay 5, .write "36", .delay 5] ∧
+        c.lines = ["#include <Arduino.h>", "int a = 0;", "void shout(int v);", "int scale(int v, bool flag);",
+          "void shout(int v) {", "Serial.println(v);", "delay(5);", "}",
+          "int scale(int v, bool flag) {", "int t = (v * 2);", "if (flag) {", "t = (t + 1);", "}", "shout(t);", "return t;", "}",
+          "void setup() {", "Serial.begin(9600);", "a = scale(4, true);", "shout(a);", "}",
+          "void loop() {", "a = scale(a, false);", "}"]) := by
+  intro shout scale p
+  exact ⟨by decide +kernel, by decide +kernel, by rfl, _, rfl, by rfl, by decide +kernel⟩
+
+/-- non-vacuity (W6, increment 2): procedures.  `def shout(v): mon.write(v); sleep(5)` and
+    `def count(n, k): t = 0; for j in range(n): t += k; shout(t)` (a local declared at the top of the body, a loop, a call of the
+    earlier helper), called in the prologue, inside an `if` and in the main loop: `InF` holds, `tr` accepts, both semantics agree —
+    an instance of `C01_partial` -/
+example :
+    let shout : Helper := { name := "shout", ps := [("v", .int)], body := .seq (.write (.var "v")) (.sleep (.int 5)), ret := none }
+    let count : Helper := { name := "count", ps := [("n", .int), ("k", .int)], ret := none, body := .seq (.assign "t" (.int 0)) (.forRange "j" (.var "n") (.seq (.aug "t" .add (.var "k")) (.call none "shout" [] [] .int .skip none [.var "t"]))) }
+    let p : Prog := Prog.resolve
+      { pre := .seq (.assign "a" (.int 2)) (.seq (.call none "count" [] [] .int .skip none [.var "a", .int 3])
+                  (.ifs (.cmp .gt (.var "a") (.int 1)) (.call none "shout" [] [] .int .skip none [.bin .mul (.var "a") (.int 10)]) .skip)),
+        body := some (.seq (.aug "a" .add (.int 1)) (.call none "count" [] [] .int .skip none [.int 1, .var "a"])),
+        helpers := [shout, count] }
+    InF p = true ∧ InF2 p = true ∧
+      Py.run p 2 50 = .ok [.write "3", .delay 5, .write "6", .delay 5, .write "20", .delay 5, .write "3", .delay 5, .write "4", .delay 5] ∧
+      (∃ c, tr p = .ok c ∧
+        C.run c 2 50 = .ok [.write "3", .delay 5, .write "6", .delay 5, .write "20", .delay 5, .write "3", .delay 5, .write "4", .delay 5] ∧
+        c.loop.lines = ["a = (a + 1);", "count(1, a);"]) := by
+  intro shout count p
+  exact ⟨by decide +kernel, by decide +kernel, by rfl, _, rfl, by rfl, by decide +kernel⟩
+
+/-- the frame of a call is fresh: a helper body that names a module-level name is a NameError of the model's Python side and outside
+    `InF` (increment 4 — read-only access to module-level names — is not done); `x = f(…)` with a procedure `f` binds `None` in
+    Python and does not compile: a `typeError` of both semantics, outside `InF` -/
+example :
+    let p : Prog := Prog.resolve
+      { pre := .seq (.assign "a" (.int 2)) (.call none "peek" [] [] .int .skip none [.int 1]), body := none,
+        helpers := [{ name := "peek", ps := [("v", .int)], body := .write (.bin .add (.var "v") (.var "a")), ret := none }] }
+    let q : Prog := Prog.resolve
+      { pre := .seq (.assign "a" (.int 2)) (.call (some "a") "peek" [] [] .int .skip none [.int 1]), body := none,
+        helpers := [{ name := "peek", ps := [("v", .int)], body := .write (.var "v"), ret := none }] }
+    InF p = false ∧ Py.run p 0 50 = .error .nameError ∧ InF q = false ∧ Py.run q 0 50 = .error .typeError ∧
+      tr q = .error .outsideFragment := by
+  intro p q
+  exact ⟨by decide +kernel, by rfl, by decide +kernel, by rfl, by rfl⟩
+
+/-- one definition: no prototype (`if len(functions) > 1`); a helper that is only ever called as a STATEMENT is emitted with all-int
+    parameters (the definition-time parse; nothing requests another signature), so the model refuses a bool-typed parameter there -/
+example :
+    let mk (t : Ty) : Prog := Prog.resolve
+      { pre := .seq (.assign "a" (.int 1)) (.call none "say" [] [] .int .skip none [.cmp .lt (.var "a") (.int 2)]),
+        body := none, helpers := [{ name := "say", ps := [("f", t)], body := .ifs (.var "f") (.write (.int 1)) .skip, ret := none }] }
+    tr (mk .bool) = .error .outsideFragment ∧
+    (let q : Prog := Prog.resolve
+      { pre := .seq (.assign "a" (.int 1)) (.call none "say" [] [] .int .skip none [.var "a"]),
+        body := none, helpers := [{ name := "say", ps := [("f", .int)], body := .ifs (.var "f") (.write (.int 1)) .skip, ret := none }] }
+     ∃ c, tr q = .ok c ∧ c.lines = ["#include <Arduino.h>", "int a = 1;", "void say(int f) {", "if (f) {", "Serial.println(1);", "}", "}",
+        "void setup() {", "Serial.begin(9600);", "say(a);", "}", "void loop() {", "}"] ∧ C.run c 0 50 = .ok [.write "1"] ∧
+        Py.run q 0 50 = .ok [.write "1"]) := by
+  intro mk
+  exact ⟨by rfl, _, rfl, by decide +kernel, by rfl, by rfl⟩
+
+/-- no recursion: a body may call EARLIER helpers only (`helpersOk`), so a self-call is not a translation unit of the model -/
+example :
+    let p : Prog := { pre := .skip, body := none, helpers := [{ name := "f", ps := [("n", .int)], body := .call none "f" [("n", .int)] [] .int .skip none [.var "n"], ret := none }] }
+    p.resolved = false ∧ tr p = .error .outsideFragment := by
+  intro p
+  exact ⟨by decide +kernel, by rfl⟩
 
 end Reduino.Props.C01
